@@ -149,6 +149,7 @@ namespace
         K_probe_foreign,
         K_min_block,
         K_ll_exit,
+        K_blocksrc,
         K__count
     };
     const char* kind_names[K__count] = {"alloc_node", "alloc_array", "try_alloc_node",
@@ -157,7 +158,8 @@ namespace
                                         "move_ctor", "move_assign", "swap", "zombie", "sweep",
                                         "cycle", "drain", "fill_block", "exhaust", "probe",
                                         "arm_fault", "replay_unwind", "bad_release", "sib_alloc",
-                                        "sib_dealloc", "probe_foreign", "min_block", "ll_exit"};
+                                        "sib_dealloc", "probe_foreign", "min_block", "ll_exit",
+                                        "blocksrc"};
 
     struct Mode
     {
@@ -184,7 +186,7 @@ namespace
          "case with a successful request that has alignment>=8, or an array with count>=2, or sits in "
          "a position class (first in a fresh block / fills block / after growth / after unwind)"},
         {"C03", O_CORE | O_FAIL | O_NOREPORT, ALL_FAM,
-         {20, 8, 8, 6, 16, 14, 2, 2, 3, 1, 1, 1, 1, 0, 0, 2, 0, 1, 3, 6, 0, 6, 0, 0, 0, 0, 0, 0, 0}, 160, true,
+         {20, 8, 8, 6, 16, 14, 2, 2, 3, 1, 1, 1, 1, 0, 0, 2, 0, 1, 3, 6, 0, 6, 0, 0, 0, 0, 0, 0, 0, 3}, 160, true,
          ">=1 failed request (oversize / exhaustion / injected upstream fault) followed by >=1 "
          "successful allocation and >=1 release of memory allocated before the failure"},
         {"C04", O_CORE | O_CONSERVE | O_NOREPORT, FB(F_POOL) | FB(F_COLL),
@@ -192,7 +194,7 @@ namespace
          "segment with >=1 array whose byte count is not a multiple of the node size, or >=6 releases "
          "in an order different from allocation order and its reverse, or a cycle with k>=3"},
         {"C05", O_CORE | O_UPSTREAM | O_NOREPORT, FB(F_POOL) | FB(F_COLL) | FB(F_STACK) | FB(F_ITER),
-         {30, 10, 4, 2, 20, 0, 6, 8, 3, 6, 2, 3, 3, 2, 3, 1, 0, 2, 4, 2, 0, 4, 0, 0, 0, 0, 0, 0, 0}, 200, true,
+         {30, 10, 4, 2, 20, 0, 6, 8, 3, 6, 2, 3, 3, 2, 3, 1, 0, 2, 4, 2, 0, 4, 0, 0, 0, 0, 0, 0, 0, 2}, 200, true,
          ">=3 upstream blocks acquired and one of: a shrink_to_fit with cached blocks / a move or swap "
          "with >=2 blocks / an injected failure at k>=2 / destruction with live allocations"},
         {"C06", O_CORE | O_UNWIND | O_NOREPORT, FB(F_STACK),
@@ -2764,6 +2766,190 @@ namespace
             }
         }
 
+
+        //--- block sources and bare arenas driven directly, with an upstream failure (C03, C05) ---//
+        // A block source whose upstream call failed must be exactly as it was: same next_block_size(),
+        // and the retry with the fault gone succeeds (C03: "able to serve later valid requests").
+        template <class Src>
+        void blocksrc_fail_and_retry(const char* tag, Src& src, int own)
+        {
+            auto&  slab = Slab::get();
+            size_t n0   = src.next_block_size();
+            slab.fail_at(slab.alloc_calls() + 1);
+            bool threw = false;
+            try
+            {
+                auto b = src.allocate_block();
+                (void)b;
+            }
+            catch (std::bad_alloc&)
+            {
+                threw = true;
+            }
+            slab.fail_at(0);
+            if (!threw)
+            {
+                fail(std::string("blocksrc-fault-absorbed:") + tag, "the upstream failure did not reach the caller");
+                return;
+            }
+            if (src.next_block_size() != n0)
+            {
+                fail(std::string("failure-changed-state:") + tag,
+                     "next_block_size() was " + std::to_string(n0) + " before and is "
+                         + std::to_string(src.next_block_size()) + " after a failed allocate_block()");
+                return;
+            }
+            fm::memory_block b;
+            try
+            {
+                b = src.allocate_block();
+            }
+            catch (std::bad_alloc&)
+            {
+                fail(std::string("unusable-after-failure:") + tag,
+                     "allocate_block() keeps failing after the one upstream failure is gone");
+                return;
+            }
+            auto blk = slab.find_block(b.memory);
+            if (!blk || blk->owner != own || b.size != n0 || blk->bytes < b.size)
+                fail(std::string("blocksrc-shape:") + tag, "block of " + std::to_string(b.size)
+                                                              + " bytes, announced " + std::to_string(n0));
+            src.deallocate_block(b);
+            ++n_blocksrc;
+        }
+        unsigned n_blocksrc = 0;
+        void op_blocksrc(const Op& op)
+        {
+            // an armed fault that has not fired yet belongs to the subject's history: leave it alone
+            if (!mode.faults || Slab::get().pending_fault())
+            {
+                ++ci.noops;
+                return;
+            }
+            auto&  slab = Slab::get();
+            int    own  = ctx.new_owner();
+            size_t bs   = (size_t(256) << (op.a % 4)) + (op.c % 3 ? 0 : 8 * (op.c % 16));
+            switch (op.b % 5)
+            {
+            case 0:
+            {
+                fm::fixed_block_allocator<SlabAlloc> a(bs, SlabAlloc(own));
+                blocksrc_fail_and_retry("fixed", a, own);
+                if (!failed && op.a % 2)
+                {
+                    // after a full round trip the one block is available again, a second one is refused
+                    auto b = a.allocate_block();
+                    try
+                    {
+                        (void)a.allocate_block();
+                        fail("blocksrc-fixed-second-block", "fixed_block_allocator handed out a second block");
+                    }
+                    catch (fm::out_of_memory&)
+                    {
+                    }
+                    a.deallocate_block(b);
+                    blocksrc_fail_and_retry("fixed-again", a, own);
+                }
+                break;
+            }
+            case 1:
+            {
+                fm::growing_block_allocator<SlabAlloc> a(bs, SlabAlloc(own));
+                if (op.a % 2)
+                {
+                    auto b1 = a.allocate_block();
+                    blocksrc_fail_and_retry("growing-2nd", a, own);
+                    a.deallocate_block(b1);
+                }
+                else
+                    blocksrc_fail_and_retry("growing", a, own);
+                break;
+            }
+            case 2:
+            case 3:
+            {
+                // a bare arena that gave its block back asks for it again while upstream fails once
+                auto run = [&](auto& ar)
+                {
+                    auto b = ar.allocate_block();
+                    (void)b;
+                    ar.deallocate_block();
+                    ar.shrink_to_fit();
+                    size_t n0 = ar.next_block_size();
+                    slab.fail_at(slab.alloc_calls() + 1);
+                    bool threw = false;
+                    try
+                    {
+                        (void)ar.allocate_block();
+                    }
+                    catch (std::bad_alloc&)
+                    {
+                        threw = true;
+                    }
+                    slab.fail_at(0);
+                    if (!threw)
+                        fail("blocksrc-fault-absorbed:arena", "the upstream failure did not reach the caller");
+                    else if (ar.next_block_size() != n0)
+                        fail("failure-changed-state:arena", "next_block_size() changed across a failed allocate_block()");
+                    else
+                        try
+                        {
+                            auto b2 = ar.allocate_block();
+                            if (b2.size != n0)
+                                fail("blocksrc-shape:arena", "block size differs from next_block_size()");
+                            ar.deallocate_block();
+                            ++n_blocksrc;
+                        }
+                        catch (std::bad_alloc&)
+                        {
+                            fail("unusable-after-failure:arena",
+                                 "the arena keeps failing after the one upstream failure is gone");
+                        }
+                };
+                if (op.b % 5 == 2)
+                {
+                    fm::memory_arena<fm::fixed_block_allocator<SlabAlloc>, true> ar(bs, SlabAlloc(own));
+                    run(ar);
+                }
+                else
+                {
+                    fm::memory_arena<fm::fixed_block_allocator<SlabAlloc>, false> ar(bs, SlabAlloc(own));
+                    run(ar);
+                }
+                break;
+            }
+            default:
+            {
+                fm::memory_arena<fm::growing_block_allocator<SlabAlloc>, true> ar(bs, SlabAlloc(own));
+                (void)ar.allocate_block();
+                size_t n0 = ar.next_block_size();
+                slab.fail_at(slab.alloc_calls() + 1);
+                try
+                {
+                    (void)ar.allocate_block();
+                    fail("blocksrc-fault-absorbed:growing-arena", "the upstream failure did not reach the caller");
+                }
+                catch (std::bad_alloc&)
+                {
+                }
+                slab.fail_at(0);
+                if (!failed && ar.next_block_size() != n0)
+                    fail("failure-changed-state:growing-arena",
+                         "next_block_size() changed across a failed allocate_block()");
+                if (!failed)
+                {
+                    (void)ar.allocate_block();
+                    ++n_blocksrc;
+                }
+            }
+            }
+            if (!failed && slab.outstanding_of(own))
+                fail("blocksrc-leak", "a block source driven directly left upstream memory outstanding");
+            if (!failed && slab.last_error())
+                fail("blocksrc-upstream", slab.last_error());
+            ci.classes.insert("block-source-direct");
+        }
+
         //--- end of case ---//
         void finish()
         {
@@ -3117,6 +3303,9 @@ namespace
                     break;
                 case K_arm_fault:
                     op_arm_fault(op);
+                    break;
+                case K_blocksrc:
+                    op_blocksrc(op);
                     break;
                 case K_bad_release:
                     op_bad_release(op);
